@@ -3,7 +3,7 @@
 cd "$(dirname "$0")/.."
 for f in tools/props.d/*.json; do
   p=$(basename $f .json)
-  out=$(timeout 3000 ./check $p --tier ${1:-quick} 2>&1)
+  out=$(timeout 9000 ./check $p --tier ${1:-quick} 2>&1)
   rc=$?
   echo "exit $rc | $(echo "$out" | grep -m1 'tier=')"
   echo "$out" | grep '^VIOLATION\|^BROKEN' | cut -c1-300
